@@ -91,8 +91,8 @@ TC(cf, op, ty2, x) == [fam |-> "tup", cfg |-> cf.n, k |-> cf.k, ty |-> cf.ty, ty
 Copyable(ty) == \A i \in 1..Len(ty) : ty[i] # "mo"
 Assignable(ty) == \A i \in 1..Len(ty) : ty[i] # "cint"
 TwoSeqOps(cf) ==
-    {"cmp", "swap", "fswap", "ctor_move"} \cup (IF Copyable(cf.ty) THEN {"ctor_copy"} ELSE {})
-    \cup (IF Assignable(cf.ty) THEN {"assign_move"} ELSE {})
+    {"cmp", "ctor_move"} \cup (IF Copyable(cf.ty) THEN {"ctor_copy"} ELSE {})
+    \cup (IF Assignable(cf.ty) THEN {"assign_move", "swap", "fswap"} ELSE {})
     \cup (IF Assignable(cf.ty) /\ Copyable(cf.ty) THEN {"assign_copy"} ELSE {})
 
 TupCasesOf(cf) ==
@@ -149,7 +149,7 @@ CaseLaws ==
             /\ (cs.op \in {"swap", "fswap"}) => e.ret = q \o p
             /\ (cs.op \in {"ctor_copy", "assign_copy"}) => SubSeq(e.ret, n + 1, 2 * n) = q
             /\ (cs.op = "cat") => SubSeq(e.ret, 1, n + Len(cs.ty2)) = p \o q
-\* transitivity of the pair order (all triples of one shape)
-PairOrderTransitive ==
-    \A p, q, w \in SeqsOf(2) : (LexLess(p, q) /\ LexLess(q, w)) => LexLess(p, w)
+\* transitivity of the lexicographic order (all triples of pairs and of triples; evaluated once)
+ASSUME PairOrderTransitive ==
+    \A n \in 2..3 : \A p, q, w \in SeqsOf(n) : (LexLess(p, q) /\ LexLess(q, w)) => LexLess(p, w)
 =========================================================================
